@@ -124,8 +124,20 @@ def run(plan):
                     return
                 snap_r = {a: ([int(x) for x in getattr(ac0, a)] if isinstance(getattr(ac0, a), list) else getattr(ac0, a))
                           for a in CAPS_ATTRS}
-                if snap_r != snap_full:
-                    diff = {a: (snap_full[a], snap_r[a]) for a in CAPS_ATTRS if snap_full[a] != snap_r[a]}
+                # reference: an object with the same history of *contents* (first the first page's records alone,
+                # then the complete list), each delivered in one response - capability updates are not required to
+                # be independent of what the object had learned before, paging is required not to matter
+                ref = w.ns.AC(ip=HOST, port=PORT, device_id=s.device_id)
+                if s.version == 3:
+                    await capture(w, ref.authenticate(s.token.hex(), s.key.hex()))
+                dev.caps_pages = [(recs[:k], None)]
+                await capture(w, ref.get_capabilities())
+                dev.caps_pages = [(recs, plan.get("flag"))]
+                await capture(w, ref.get_capabilities())
+                snap_ref = {a: ([int(x) for x in getattr(ref, a)] if isinstance(getattr(ref, a), list) else getattr(ref, a))
+                            for a in CAPS_ATTRS}
+                if snap_r != snap_ref:
+                    diff = {a: (snap_ref[a], snap_r[a]) for a in CAPS_ATTRS if snap_ref[a] != snap_r[a]}
                     res.fail("public capability attributes differ between one response and a paged delivery",
                              f"split {k}, complete query after one whose additional page was lost: {diff}")
                     return
